@@ -192,7 +192,7 @@ def tgedmd_case(draw):
     c['phi'][0][0] = {'family': 'constant', 'index': 0}
     # overall scale of Psi (absolute and relative thresholds must be told apart): every function of mode 0 is multiplied ...
     c['scale_exp'] = draw(st.sampled_from([0, 0, -8, 6]))
-    c.update({'max_rank': draw(st.sampled_from([None, None, 1000])),'m': draw(st.integers(4, 10)), 'reversible': draw(st.booleans()), 'reweight': draw(st.booleans()),
+    c.update({'max_rank': draw(st.sampled_from([None, None, 1000, 2, 3, 4])),'m': draw(st.integers(4, 10)), 'reversible': draw(st.booleans()), 'reweight': draw(st.booleans()),
               'rel_threshold': draw(st.booleans()), 'threshold_exp': draw(st.sampled_from([-10, -9, -8])),
               'return_option': draw(st.sampled_from(['eigenfunctionevals', 'eigenvectors', 'eigentensors'])),
               'num_eigvals': draw(st.sampled_from([None, None, 1, 2, 3])),
@@ -255,6 +255,36 @@ def body_tgedmd(c):
     r = int(np.sum(S > 1e-8 * S[0]))
     assume(r >= 1)
     U, S, Vh = U[:, :r], S[:r], Vh[:r]
+    cap = c.get('max_rank')
+    cap_binds = False
+    if cap is not None and cap < 1000:
+        # a cap on the ranks: "the same singular-value cut" is then the sequential (mode by mode) truncated SVD of Psi, replayed
+        # here densely from the per-mode value matrices (re-weighting enters with the last mode, as documented)
+        vm = [np.array([[g012(sp, X[sp['index'], l])[0] for l in range(m)] for sp in f]) for f in c['phi']]
+        R = np.ones((1, m))
+        frames = []
+        for i, v in enumerate(vm):
+            C = R[:, None, :] * v[None, :, :]
+            if i == p - 1:
+                C = C * np.sqrt(ww)[None, None, :]
+            Mx = C.reshape(R.shape[0] * v.shape[0], m)
+            Ui, Si, Vi = np.linalg.svd(Mx, full_matrices=False)
+            nz = int(np.sum(Si > 1e-8 * Si[0]))
+            # guard band at the cap: the singular value kept last must be clearly larger than the first one dropped
+            if nz > cap:
+                cap_binds = True
+                assume(Si[cap - 1] > 1.5 * Si[cap])
+            k_i = min(nz, cap)
+            frames.append(Ui[:, :k_i].reshape(R.shape[0], v.shape[0], k_i))
+            R = Si[:k_i, None] * Vi[:k_i]
+            S_last, Vh_last = Si[:k_i], Vi[:k_i]
+        if cap_binds:
+            Uf = frames[0].reshape(frames[0].shape[1], frames[0].shape[2])
+            for fr in frames[1:]:
+                Uf = np.tensordot(Uf, fr, axes=([Uf.ndim - 1], [0]))
+            U = Uf.reshape(-1, Uf.shape[-1])
+            S, Vh = S_last, Vh_last
+            r = len(S)
     if b is not None:
         M = Vh @ np.diag(np.sqrt(ww)) @ LPsi.T @ U / S
     else:
@@ -278,7 +308,7 @@ def body_tgedmd(c):
     if c['num_eigvals'] is not None:
         kw['num_eigvals'] = c['num_eigvals']
     if c.get('max_rank'):
-        kw['max_rank'] = c['max_rank']            # a cap above every rank is a no-op
+        kw['max_rank'] = c['max_rank']            # (1000: a cap above every rank is a no-op; 2..4 may bind)
     snap_X, snap_s = X.copy(), sigma.copy()
     with contextlib.redirect_stdout(io.StringIO()):
         out = tg.amuset_hosvd(X, basis, sigma, b=b, reweight=w, **kw)
@@ -318,6 +348,8 @@ def body_tgedmd(c):
         lab.add('rank_deficient_psi')
     if c.get('scale_exp', 0):
         lab.add('rescaled_psi')
+    if cap_binds:
+        lab.add('max_rank_binds')
     return lab
 
 
